@@ -145,7 +145,7 @@ PROPS["C15"] = {"theorems": [("GdslModel.Props.C15", "G.Sync." + t) for t in ["d
     "oracles": ["c15"],
     "rule": "every generated single-threaded program (edge histories with random handle provenance, all search/cycle/ordering configurations with callbacks and filters, container histories, scc, DOT, serde round trips, comparisons) is run on digraph and sync_digraph resp. ungraph and sync_ungraph; the two implementation streams are compared line by line (container-order-dependent results as sets), and each stream is compared with the model; distinct_nontrivial = number of programs.",
     "exhaustive": False,
-    "level_text": "Machine-checked proof (Lean 4) that every lock program of the sync flavours (the four mutators with the mutation mutex, queries, the iterator step), run alone from any store, never blocks on a lock it holds itself and computes exactly the plain flavour's function (same final store, same return value), lifted to whole call sequences; the iterator step holds no lock when it returns. Everything above the edge operations and the iterator step (traversals, containers, scc, serde, macros) is one model for both members of a pair. The tie to the code is a direct differential of the two implementations on every generated program (no model involved) plus the model correspondence of each; API present in only one member of a pair (Graph::with_capacity, to_dot_with_attr / sizeof of one flavour) is outside 'calls common to both'.",
+    "level_text": "Machine-checked proof (Lean 4) that every lock program of the sync flavours (the four mutators with the mutation mutex, queries, the iterator step), run alone from any store, never blocks on a lock it holds itself and computes exactly the plain flavour's function (same final store, same return value), lifted to whole call sequences; the iterator step holds no lock when it returns. Traversals of the sync flavours written as lock programs (bfs/dfs search, preorder: one iterator step after the other) are proved to return, run alone, exactly what the static traversal of the plain model returns on the same lists, without blocking and without touching the store; the serialised document depends on the container's iteration order only through a permutation of its two lists. Everything else above the edge operations and the iterator step (containers, scc, serde, macros) is one model for both members of a pair. The tie to the code is a direct differential of the two implementations on every generated program (no model involved) plus the model correspondence of each; API present in only one member of a pair (Graph::with_capacity, to_dot_with_attr / sizeof of one flavour) is outside 'calls common to both'.",
     "level_note": CORR_NOTE + " The lock programs' acquisition points are validated against the real code by the C17 scheduler correspondence.",
     "technique": "Lean 4 refinement proof (lock programs run alone = plain functions) + direct plain-vs-sync differential of the implementations + model correspondence",
     "design_ref": "DESIGN.md section 7, C15"}
